@@ -9,6 +9,9 @@ CONSTANTS
   Topos = {"radial", "cut"}
   Cpls = {"c4", "c2", "o4"}
   EgSets = {"g13", "g31"}
+  StrideB = 3
+  StrideC = 8
+  Offset = 0
 INVARIANT M_TotalsAgree
 INVARIANT M_SymmetricImpliesBalanced
 INVARIANT M_BalancedThird
